@@ -163,21 +163,17 @@ Definition handler_run (o : oid) (hix : nat) (h : handler) (n : nid) (nu : node_
 (* ErasedObserver::run_all (internal_observer.rs:143) *)
 Definition run_all (o : oid) (n : nid) (nu : node_update) (now : Z) : M unit :=
   ob <- get_obs o ;;
-  (fix go (hs : list handler) (ix : nat) : M unit :=
-     match hs with
-     | [] => ret tt
-     | _ :: hs' =>
-       ob <- get_obs o ;;
-       match o_handlers ob !! ix with
-       | None => ret tt
-       | Some h =>
-         (match o_state ob with
-          | OCreated | OUnlinked => panic (PAssert 420)
-          | ODisallowed => ret tt
-          | OInUse => handler_run o ix h n nu now
-          end) ;;; go hs' (S ix)
-       end
-     end) (o_handlers ob) 0%nat.
+  forM_ (seq 0 (length (o_handlers ob))) (fun ix =>
+    ob <- get_obs o ;;
+    match o_handlers ob !! ix with
+    | None => ret tt
+    | Some h =>
+      match o_state ob with
+      | OCreated | OUnlinked => panic (PAssert 420)
+      | ODisallowed => ret tt
+      | OInUse => handler_run o ix h n nu now
+      end
+    end).
 
 (* Node::run_on_update_handlers (node.rs:931) *)
 Definition run_on_update_handlers (n : nid) (nu : node_update) (now : Z) : M unit :=
@@ -186,13 +182,19 @@ Definition run_on_update_handlers (n : nid) (nu : node_update) (now : Z) : M uni
     ob <- get_obs o ;; if o_live ob then run_all o n nu now else ret tt).
 
 (* ------------------------------------------------------------ stabilise (state.rs:278-397) *)
-Definition stabilise_start (fuel : nat) : M unit :=
-  modify (fun s => s <| st_status := Stabilising |>) ;;;
+Definition stabilise_start_links (fuel : nat) : M unit :=
   add_new_observers fuel ;;;
   unlink_disallowed_observers fuel ;;;
   collect [].                       (* observers just unlinked may have been the last owners of subgraphs *)
 
-Definition stabilise_end : M unit :=
+Definition stabilise_start (fuel : nat) : M unit :=
+  modify (fun s => s <| st_status := Stabilising |>) ;;;
+  stabilise_start_links fuel.
+
+(* stabilise_end (state.rs:285), in its three phases *)
+(* phase 1: bump the stabilisation number, apply deferred var writes, release dropped vars,
+   decide what each queued node will tell its handlers *)
+Definition stabilise_end_prepare : M unit :=
   modify (fun s => s <| stab_num := stab_num s + 1 |>) ;;;
   (* set_during_stabilisation: `while let Some(var) = stack.pop()` *)
   s <- get ;;
@@ -216,14 +218,21 @@ Definition stabilise_end : M unit :=
     if negb (n_live x) then ret tt else
     upd_node n (fun x => x <| n_in_has := false |>) ;;;
     nu <- node_update_of n ;;
-    modify (fun s => s <| run_ouh := run_ouh s ++ [(n, nu)] |>)) ;;;
-  modify (fun s => s <| st_status := RunningOnUpdateHandlers |>) ;;;
+    modify (fun s => s <| run_ouh := run_ouh s ++ [(n, nu)] |>)).
+
+(* phase 2 (status = RunningOnUpdateHandlers): the callbacks *)
+Definition stabilise_end_run_handlers : M unit :=
   now <- gets stab_num ;;
   s <- get ;;
   modify (fun s => s <| run_ouh := [] |>) ;;;
   forM_ (run_ouh s) (fun nnu =>
     x <- get_node nnu.1 ;;
-    if n_live x then run_on_update_handlers nnu.1 nnu.2 now else ret tt) ;;;
+    if n_live x then run_on_update_handlers nnu.1 nnu.2 now else ret tt).
+
+Definition stabilise_end : M unit :=
+  stabilise_end_prepare ;;;
+  modify (fun s => s <| st_status := RunningOnUpdateHandlers |>) ;;;
+  stabilise_end_run_handlers ;;;
   modify (fun s => s <| st_status := NotStabilising |>).
 
 Fixpoint stabilise_loop (fuel : nat) : M unit :=
